@@ -229,3 +229,137 @@ def check_self_shift_recurrence(ctx, res: Result, dotted, rule="N-RECUR"):
                     res.violation(rule, f, norm(n)[:140], "sequential", f"`{norm(t)}` is assigned from `{norm(r)}` of the same array in one slice operation: the right-hand side is evaluated before any row is written, so row d is computed from the OLD row d-1 instead of the freshly updated one (the recursion has to run degree by degree)", loc(v.fi, n))
     if not found:
         res.ok(rule, f, "no vectorised self-recurrence", "scan", loc(v.fi, v.fi.node))
+
+
+def check_iterator_reuse(ctx, res: Result, dotted, rule="G-REUSE"):
+    """A generator can be consumed once.  A local that may hold a generator expression (assigned from one, or from a repository
+    helper that returns one on some path) and is consumed in full (a `for` loop without `break`, list() / set() / sum() ...)
+    is empty afterwards: a later loop or membership test over it sees nothing."""
+    v = ctx.view(dotted)
+    fi = v.fi
+    f = fi.short
+    res.rules.setdefault(rule, "a local that may hold a generator is not consumed a second time after it was consumed in full (the second pass would see an empty iterator)")
+
+    def may_be_generator(e, depth=0):
+        if isinstance(e, ast.GeneratorExp):
+            return True
+        if isinstance(e, ast.Call) and isinstance(e.func, ast.Name) and e.func.id in ("map", "filter", "zip", "iter", "reversed", "enumerate"):
+            return e.func.id != "iter"  # iter(x) is the deliberate one-shot idiom
+        if isinstance(e, ast.IfExp):
+            return may_be_generator(e.body, depth) or may_be_generator(e.orelse, depth)
+        if isinstance(e, ast.Call) and depth < 2:
+            for g in ctx.callees(fi, e):
+                gv = ctx.view(g)
+                for r in walk_no_nested(g.node):
+                    if isinstance(r, ast.Return) and r.value is not None:
+                        rv = gv.resolve(r.value) if isinstance(r.value, ast.Name) else r.value
+                        if may_be_generator(rv, depth + 1):
+                            return True
+        return False
+
+    names = {}
+    for n in walk_no_nested(fi.node):
+        if isinstance(n, ast.Assign) and len(n.targets) == 1 and isinstance(n.targets[0], ast.Name) and may_be_generator(n.value):
+            names.setdefault(n.targets[0].id, []).append(n)
+    n_checked = 0
+    for name, defs in sorted(names.items()):
+        # consumptions: (cfg id, node, full?)
+        uses = []
+        for n in walk_no_nested(fi.node):
+            if isinstance(n, ast.For) and isinstance(n.iter, ast.Name) and n.iter.id == name:
+                full = not any(isinstance(b, (ast.Break, ast.Return)) for b in ast.walk(n))
+                uses.append((v.cfg.by_ast.get(id(n)), n, full))
+            elif isinstance(n, ast.Compare) and any(isinstance(c, ast.Name) and c.id == name for c in n.comparators) and any(isinstance(o, (ast.In, ast.NotIn)) for o in n.ops):
+                uses.append((v.cfg_id(n), n, False))
+            elif isinstance(n, ast.Call) and isinstance(n.func, ast.Name) and n.func.id in ("list", "set", "tuple", "sorted", "sum", "max", "min", "frozenset", "dict", "any", "all", "len") and n.args and isinstance(n.args[0], ast.Name) and n.args[0].id == name:
+                uses.append((v.cfg_id(n), n, n.func.id not in ("any", "all")))
+            elif isinstance(n, (ast.ListComp, ast.SetComp, ast.DictComp, ast.GeneratorExp)) and any(isinstance(g.iter, ast.Name) and g.iter.id == name for g in n.generators):
+                uses.append((v.cfg_id(n), n, True))
+        uses = [u for u in uses if u[0] is not None]
+        for a in uses:
+            if not a[2]:
+                continue
+            for b in uses:
+                if b is a:
+                    continue
+                # b can run after a completed (for a loop: via its `done` edge), with no re-definition of the name in between
+                start = v.cfg.succ(a[0], "done") if isinstance(a[1], ast.For) else [a[0]]
+                redefs = {v.cfg_id(d) for d in defs} - {None}
+                if any(s_ == b[0] or v.cfg.reaches_without(s_, b[0], redefs) for s_ in start):
+                    n_checked += 1
+                    res.violation(rule, f, norm(b[1])[:100], name, f"`{name}` may be a generator (see its definition) and was consumed in full by `{norm(a[1])[:60]}`: this second use sees an empty iterator (a membership test is then always False, a loop runs zero times)", loc(fi, b[1]))
+                    break
+    if n_checked == 0:
+        res.ok(rule, f, "no local generator consumed twice", "scan", loc(fi, fi.node))
+
+
+def check_stale_in_loop(ctx, res: Result, dotted, rule="G-STALE"):
+    """Inside a loop, a local that is only ever assigned inside the loop body is read on a path of the iteration that has not
+    assigned it: the value it has there was computed for an EARLIER item (or it is unbound).  Accumulators (initialised before
+    the loop) and loop targets are what is meant to be carried from one iteration to the next; nothing else is."""
+    v = ctx.view(dotted)
+    fi = v.fi
+    f = fi.short
+    res.rules.setdefault(rule, "inside a loop no local is read on a path of the iteration that did not assign it, unless it was initialised before the loop (no value computed for an earlier item is used for the current one)")
+    params = {a.arg for a in fi.params} | {a.arg for a in fi.node.args.kwonlyargs}
+    n_found = 0
+
+    def stores_in(node):
+        out = {}
+        for n in ast.walk(node):
+            if isinstance(n, ast.Name) and isinstance(n.ctx, ast.Store):
+                out.setdefault(n.id, []).append(n)
+        return out
+
+    loops = [n for n in walk_no_nested(fi.node) if isinstance(n, (ast.For, ast.While))]
+    reported = set()
+    for lp in loops:
+        hid = v.cfg.by_ast.get(id(lp)) if isinstance(lp, ast.For) else v.cfg.by_ast.get(id(lp.test))
+        if hid is None:
+            continue
+        body_nodes = [y for st in lp.body for y in ast.walk(st)]
+        body_ids = {id(y) for y in body_nodes}
+        inner = stores_in(ast.Module(body=lp.body, type_ignores=[]))
+        target_names = {x.id for x in ast.walk(lp.target) if isinstance(x, ast.Name)} if isinstance(lp, ast.For) else set()
+        # comprehension variables are local to their comprehension
+        comp_vars = {x.id for y in body_nodes if isinstance(y, ast.comprehension) for x in ast.walk(y.target) if isinstance(x, ast.Name)}
+        for name, sts in inner.items():
+            if name in params or name in target_names or name in comp_vars or name in reported:
+                continue
+            # defined anywhere outside this loop's body?  then carrying it is (possibly) deliberate
+            outside = [n for n in ast.walk(fi.node) if isinstance(n, ast.Name) and isinstance(n.ctx, ast.Store) and n.id == name and id(n) not in body_ids]
+            if outside:
+                continue
+            def_ids = set()
+            for s_ in sts:
+                st_ = v.stmt_of(s_)
+                # a nested loop's target is (re)assigned at that loop's head
+                holder = v.enclosing(s_, (ast.For,))
+                if holder is not None and holder is not lp and any(s_ is y for y in ast.walk(holder.target)):
+                    cid = v.cfg.by_ast.get(id(holder))
+                else:
+                    cid = v.cfg_id(st_) if st_ is not None else None
+                if cid is not None:
+                    def_ids.add(cid)
+            if not def_ids:
+                continue
+            for u in body_nodes:
+                if not (isinstance(u, ast.Name) and isinstance(u.ctx, ast.Load) and u.id == name):
+                    continue
+                uid = v.cfg_id(u)
+                if uid is None or uid in def_ids:
+                    # (a statement that both reads and writes the name: `x = f(x)` - reads the previous value)
+                    if uid in def_ids and not any(isinstance(a_, ast.AugAssign) for a_ in [v.stmt_of(u)]):
+                        pass
+                    continue
+                starts = v.cfg.succ(hid, "iter") if isinstance(lp, ast.For) else v.cfg.succ(hid, "T")
+                # (a value deliberately carried to the NEXT iteration - `prev = x` at the end of the body - is assigned after its
+                # use; what is reported is a use that an assignment EARLIER in the same iteration is meant to feed)
+                fed_in_iteration = any(v.cfg.reaches_without(d_, uid, {hid}) for d_ in def_ids)
+                if fed_in_iteration and any(s0 == uid or (s0 not in def_ids and v.cfg.reaches_without(s0, uid, def_ids)) for s0 in starts):
+                    n_found += 1
+                    reported.add(name)
+                    res.violation(rule, f, norm(v.stmt_of(u) or u)[:100], name, f"`{name}` is assigned only inside this loop, and this use can be reached in an iteration that did not assign it: it then still holds the value computed for an earlier item (or is unbound on the first one)", loc(fi, u))
+                    break
+    if n_found == 0:
+        res.ok(rule, f, "no stale loop-local value", "scan", loc(fi, fi.node))
